@@ -320,6 +320,8 @@ def _to_bytes(v, size, signed, big, exc=None):
             if bool((v < lo) | (v > hi)):
                 raise exc()
         bs = [SInt(z3.simplify((v.e >> (8 * k)) & 0xFF), 0, 255) for k in range(size)]
+        for k, b in enumerate(bs):
+            b.prov = (v.e, k, size, signed)      # byte k of the size-byte two's-complement expansion of v
         bs = [b.e.as_long() if z3.is_bv_value(b.e) else b for b in bs]
     else:
         if isinstance(v, (SReal, float)):
@@ -355,6 +357,13 @@ def _from_bytes(bs, signed, big):
             e = z3.If(e >= (1 << (8 * size - 1)), e - (1 << (8 * size)), e)
             return SInt(e, -(1 << (8 * size - 1)), (1 << (8 * size - 1)) - 1)
         return SInt(e, 0, (1 << (8 * size)) - 1)
+    p0 = getattr(bs[0], 'prov', None) if _isym(bs[0]) else None
+    if p0 is not None and len(p0) == 4 and p0[2] == size and p0[3] == signed and all(
+            _isym(b) and b.prov is not None and len(b.prov) == 4 and b.prov[2] == size and b.prov[1] == size - 1 - i
+            and b.prov[3] == signed and b.prov[0].eq(p0[0]) for i, b in enumerate(bs)):
+        # reassembling the bytes of one packed value gives that value back (exact rewrite; keeps word-level structure)
+        lo, hi = (-(1 << (8 * size - 1)), (1 << (8 * size - 1)) - 1) if signed else (0, (1 << (8 * size)) - 1)
+        return SInt(p0[0], lo, hi)
     e = None
     for b in bs:
         be = SInt.of(b).e
